@@ -415,7 +415,7 @@ pub fn cmd_check(args: &[String]) -> i32 {
         }
         let e = checks::engine(&f.engine).unwrap();
         let tm = Instant::now();
-        let (min_ops, execs) = minimise(e.make, &f.cfg, &f.ops, &sig, 3000);
+        let (min_ops, execs) = minimise(e.make, &f.cfg, &f.ops, &sig, 15_000);
         println!(
             "violation {} in run {} of family {}: {} -- minimised {} -> {} ops in {} executions ({:.1} s)",
             sig,
